@@ -788,11 +788,14 @@ impl Parser {
                 minus = true;
                 lexem = self.next_lexem();
             } else if s == "+" {
-                // a leading plus changes nothing: go on with what follows it
-                // (a number keeps the sign, `modified = +1` is tomorrow)
+                // a leading plus changes nothing in front of a column or a function: go on with what
+                // follows it; a number keeps the sign (`modified = +1` is tomorrow), and so does any
+                // other text: in `name = +abc*` the plus is the first character of the pattern
                 lexem = match self.next_lexem() {
                     Some(Lexem::RawString(s))
-                        if !s.is_empty() && s.chars().all(|c| c.is_ascii_digit()) =>
+                        if !s.is_empty()
+                            && Field::from_str(&s).is_err()
+                            && Function::from_str(&s).is_err() =>
                     {
                         Some(Lexem::RawString(format!("+{}", s)))
                     }
